@@ -6,6 +6,8 @@ follow sticky seeded regimes (bursts of drift, warning-while-waiting, long None)
 really kept waiting.  Coverage of (parameters, counter vector, vote vector) triples is measured against
 a BFS over the *model* for the small configurations and reported; exhaustiveness is not claimed.
 """
+import numpy as np
+
 from sim.core import EndRun
 from sim.models import election as M
 
@@ -57,9 +59,14 @@ def run(case, ctx):
 
     cfg = case["cfg"]
     n = cfg["n"]
-    conf = ConfirmedElection(cfg["sensitivity"], cfg["wait_time"])
-    maj, mn = SimpleMajorityElection(), MinimumApprovalElection(cfg["approvals"])
-    od = OrderedApprovalElection(cfg["approvals"], cfg["confirmations"])
+    # the thresholds are whole numbers; one run in six hands them over as another numeric type of equal value (2.0,
+    # numpy.float64(2), numpy.int64(2): what np.ceil(0.5 * n) or a parsed configuration yields)
+    as_type = {0: float, 1: np.float64, 2: np.int64}[case["retype"] % 3] if case.get("retype") is not None else int
+    conf = ConfirmedElection(as_type(cfg["sensitivity"]), cfg["wait_time"])
+    maj, mn = SimpleMajorityElection(), MinimumApprovalElection(as_type(cfg["approvals"]))
+    od = OrderedApprovalElection(as_type(cfg["approvals"]), as_type(cfg["confirmations"]))
+    if as_type is not int:
+        ctx.fault("threshold_as_" + as_type.__name__)
     members = [Stub() for _ in range(n)]
     counters = [0] * n
     prev_verdict = None
